@@ -6,6 +6,7 @@ corners that do not carry exactly the same slave patches.
 import CBV.Lemmas.C05
 import CBV.Lemmas.C05First
 import Mathlib.Data.String.Basic
+import CBV.Gen.TC05
 
 set_option linter.unusedSectionVars false
 
